@@ -187,17 +187,13 @@ def check_fault(pname, method, faults, rep=None, want=None, followups=None):
         counter = Counter({} if kind == "entry" else {kind: (k, exc)})
         outcome = None
         try:
-            with warnings.catch_warnings():
-                warnings.simplefilter("ignore")
-                inner_show = warnings.showwarning
-                sol, s = solve_with(P, m, counter, entry_fault=exc if kind == "entry" else None, retry=(pname == "retry"))
-                if warnings.showwarning is not inner_show:
-                    fails.add("showwarning-not-restored", method=m, kind=kind, k=k, cls=cname, after="return")
+            # no warnings.catch_warnings() here: its __exit__ would restore showwarning and mask a leak
+            sol, s = solve_with(P, m, counter, entry_fault=exc if kind == "entry" else None, retry=(pname == "retry"))
             outcome = ("returned", sol.status.value)
         except BaseException as ex:
             outcome = ("propagated", type(ex).__name__)
             if ex is not exc:
-                fails.add("foreign-exception-propagated", method=m, kind=kind, k=k, cls=cname, got=repr(ex)[:200])
+                fails.add("foreign-exception-propagated", method=m, callback=kind, k=k, cls=cname, got=repr(ex)[:200])
         if rep:
             rep.transitions += 1
             rep.outcomes["%s:%s" % (cname, outcome[0] + "/" + outcome[1])] += 1
@@ -208,10 +204,10 @@ def check_fault(pname, method, faults, rep=None, want=None, followups=None):
             if rep:
                 rep.skipped["fault-swallowed-by-back-end"] += 1
         if warnings.showwarning is not show0:
-            fails.add("showwarning-not-restored", method=m, kind=kind, k=k, cls=cname, after=outcome)
+            fails.add("showwarning-not-restored", method=m, callback=kind, k=k, cls=cname, after=outcome)
             warnings.showwarning = show0
         if sys.getrecursionlimit() != lim0:
-            fails.add("recursion-limit-not-restored", method=m, kind=kind, k=k, cls=cname, got=sys.getrecursionlimit())
+            fails.add("recursion-limit-not-restored", method=m, callback=kind, k=k, cls=cname, got=sys.getrecursionlimit())
             sys.setrecursionlimit(lim0)
     # the same problem object must now behave like a never-faulted replica
     for m2 in (followups or methods):
